@@ -283,6 +283,36 @@ def angelic_skip_targets(F, f, goal_bbs, ctx=None, label=""):
             out.add(skip)
             if ctx is not None:
                 ctx.angelic_guard("%s: `%s` guard (changed-count idiom); the side without the required call is taken to mean 'nothing changed'" % (label, (c.static or "").split("::")[-1]), f.where(sw))
+    # boolean flag locals (`let mut found = false; ... found = true;`): every assignment is a constant
+    flag_locals = {}
+    for i in range(f.n):
+        for st in f.stmts(i):
+            if proj(st["d"]):
+                continue
+            l = st["d"]["l"]
+            rv = st["r"]
+            is_const_bool = rv.get("k") == "use" and op_const(rv["o"]) is not None and op_const(rv["o"])[0] == "bool"
+            flag_locals[l] = flag_locals.get(l, True) and is_const_bool
+        t = f.term(i)
+        if t["k"] == "call" and not proj(t["dst"]):
+            flag_locals[t["dst"]["l"]] = False
+    for i in sorted(f.live_blocks()):
+        t = f.term(i)
+        if t["k"] != "switch":
+            continue
+        l = op_local(t["on"])
+        src = None
+        for st in f.stmts(i):
+            if st["d"]["l"] == l and st["r"].get("k") == "use" and op_local(st["r"]["o"]) is not None:
+                src = op_local(st["r"]["o"])
+        cand = src if src is not None else l
+        if flag_locals.get(cand) and f.name_of(cand):
+            targets = [tg for _v, tg in t["tg"]] + [t["else"]]
+            reach = [bool(goal_bbs & f.reachable_from([tg])) for tg in targets]
+            if len(set(targets)) == 2 and reach.count(True) == 1:
+                out.add(targets[reach.index(False)])
+                if ctx is not None:
+                    ctx.angelic_guard("%s: boolean flag `%s` (set only to constants) guards the required call" % (label, f.name_of(cand)), f.where(i))
     # comparisons against constants: `count > 0`
     for i in sorted(f.live_blocks()):
         for st in f.stmts(i):
